@@ -1022,6 +1022,17 @@ public:
 	// Sets pointer to all blocks in the file
 	void SetBlockReference(std::vector<std::unique_ptr<NiObject>>* blockRef) { blocks = blockRef; }
 
+#ifdef NIFLY_VERIF
+	// Verification hook (guard NIFLY_VERIF): read-only views of the header tables.
+	const std::vector<NiString>& VerifBlockTypes() const { return blockTypes; }
+	const std::vector<uint16_t>& VerifBlockTypeIndices() const { return blockTypeIndices; }
+	const std::vector<uint32_t>& VerifBlockSizes() const { return blockSizes; }
+	const std::vector<NiString>& VerifStrings() const { return strings; }
+	uint16_t VerifNumBlockTypes() const { return numBlockTypes; }
+	uint32_t VerifNumStrings() const { return numStrings; }
+	uint32_t VerifMaxStringLen() const { return maxStringLen; }
+#endif
+
 	uint32_t GetNumBlocks() const { return numBlocks; }
 
 	template<class T>
